@@ -327,6 +327,18 @@ def _nonconforming_binop(journal):
 
 # C01-pncbo-broadcast-up: fixed in /repo 9804299 (regression pinned as
 # replays/C01/fixed-pncbo-broadcast-up.json); no matcher any more
+def _scalar_callable_apply(journal):
+    return any(st_.get('op') == 'apply' and not st_.get('ood') and any(
+        fn[1] == 'call' and fn[2] in ('smean', 'smax')
+        for fn in st_['args']['funcs']) for st_ in journal.get('steps', []))
+
+
+known.register('C01-apply-scalar-callable', lambda spec, f: (
+    f.clause == 'in-domain-raised' and f.klass.startswith('apply:') and
+    f.where == 'ValueError@core/_files.py:applyAlongDimensions' and
+    'could not broadcast input array' in f.detail and
+    _scalar_callable_apply(spec)))
+
 known.register('C01-ioapi-var-redim', lambda spec, f: (
     f.clause == 'malformed' and 'baddims=VAR ' in f.detail and
     'cls=ioapi' in _ctx(f) and 'degraded' in _ctx(f)))
